@@ -79,6 +79,13 @@ def handle : Handler := fun j => do
             | some v => pairToJson (inv.apply p v f)).toArray)]
     pure (Json.mkObj [("dump", dumpTable m.map), ("noReinstall", dumpTable m.noReinstall),
                       ("applied", Json.arr (fwd.map pairToJson).toArray), ("inverse", invJ)])
+  | "createdeps" =>
+    let deps ← (← jarr j "deps").mapM fun d => do
+      pure ({ name := ← jstr d "name", version := ← jstr d "version", optional := ← jbool d "optional",
+              depth := ← jnat d "depth", found := ← jstrOpt d "found" } : DepReq)
+    match createDepsOrder (← jstr j "top", ← jstr j "topVersion") deps with
+    | none => pure (Json.mkObj [("error", "ProductNotFound")])
+    | some l => pure (Json.mkObj [("order", Json.arr (l.map fun (n, v, o) => Json.arr #[ofStr n, ofStr v, Json.bool o]).toArray)])
   | "srvfile" =>
     -- {server: [[path, content]..], reqs: [[path, dest]..], pinned}
     let pair := fun (f : Json) => do
